@@ -339,7 +339,8 @@ func (c *asmCase) run(work string) asmResult {
 	var o out
 	select {
 	case o = <-ch:
-	case <-time.After(60 * time.Second):
+	case <-time.After(15 * time.Second):
+		hangs++
 		return asmResult{status: "hang"}
 	}
 	if o.pan != nil {
@@ -750,7 +751,7 @@ func runC01(cfg Config) {
 		case "panic":
 			monitor("AssembleFile panicked: "+r.err, line)
 		case "hang":
-			monitor("AssembleFile did not return within 60 s", line)
+			monitor("AssembleFile did not return within 15 s", line)
 		case "ok":
 			if string(r.target) != string(g.blob) {
 				monitor(fmt.Sprintf("AssembleFile reported success but the output differs from the blob (length %d, want %d)", len(r.target), len(g.blob)), line)
@@ -789,7 +790,7 @@ func runC01(cfg Config) {
 		rep.Compare(m, line, implAsmClone, nil)
 	}
 	n := cfg.N(1500, 30000)
-	for it := 0; it < n; it++ {
+	for it := 0; it < n && hangs < 3; it++ {
 		g := genAsmCase(rng)
 		line := g.c.line()
 		r := g.c.run(cfg.Work)
